@@ -684,6 +684,15 @@ def stepRest (d : DW) (line : String) : DW × String :=
                  ({ d with menv := some m' }, match o with
                    | some o => s!"{fmtInstance m'.env.w.cfg.I} || {fmtEObs o}" | none => "raise")
      | none => (d, "bad-op"))
+  | ["mswap", k] => (match d.menv, parseFKind k with
+     -- `multi_env.reward_function = Kind(multi_env.dispatcher)` (forwarded to the current inner environment; the next `reset`
+     -- builds a new inner environment from the configuration)
+     | some m, some kind =>
+       if kind != .makespanReward && kind != .idleReward then (d, "bad-op") else
+       (match m.env.w.construct kind none with
+        | (w', some id) => ({ d with menv := some { m with env := { m.env with w := w', rew := id } } }, "ok")
+        | (_, none) => (d, "raise"))
+     | _, _ => (d, "bad-op"))
   | ["mstep", j, mm] => (match d.menv, j.toNat?, mm.toInt? with
      | some m, some j, some mm => let (m', o) := m.step j mm; ({ d with menv := some m' }, fmtStepOut m'.env.w.cfg.I o)
      | _, _, _ => (d, "bad-op"))
